@@ -1,6 +1,7 @@
 package sx
 
 import (
+	"time"
 	"os"
 	"fmt"
 	"go/constant"
@@ -41,6 +42,10 @@ type Machine struct {
 	// SolveHyps decides satisfiability of a conjunction and, when
 	// satisfiable, returns the value of want; it is installed by the verifier.
 	SolveHyps func(hyps []*smt.Term, want *smt.Term) (val *smt.Term, sat bool, ok bool)
+	// MaxExploreSecs bounds the wall time of one exploration (0: no bound).
+	MaxExploreSecs int
+	// Feasible decides satisfiability of a conjunction; installed by the verifier.
+	Feasible func(hyps []*smt.Term) (sat bool, ok bool)
 	// CallHook lets the verifier replace a call by the callee's contract.
 	CallHook func(p *Path, fn *ssa.Function, args []Val, site ssa.Instruction) (Val, bool)
 	// LoopHook is called on every arrival at a loop header that carries an
@@ -280,7 +285,11 @@ func (m *Machine) Prepare(f func(p *Path)) (map[int]Val, int, error) {
 func (m *Machine) ExploreFrom(base map[int]Val, baseNext int, maxPaths int, setup func(p *Path), body func(p *Path) Val) ([]PathResult, error) {
 	var results []PathResult
 	var prefix []bool
+	started := time.Now()
 	for {
+		if m.MaxExploreSecs > 0 && time.Since(started) > time.Duration(m.MaxExploreSecs)*time.Second {
+			return results, fmt.Errorf("exploration time limit of %d s reached after %d paths", m.MaxExploreSecs, len(results))
+		}
 		p := &Path{M: m, Heap: make(map[int]Val, len(base)+16), Next: baseNext, Ghost: map[string]Val{}}
 		for k, v := range base {
 			p.Heap[k] = v
